@@ -170,6 +170,7 @@ pub fn c10(ctx: &Ctx, rep: &mut Report) {
             }
             break;
         }
+        ctx.begin(idx);
         let mut rng = Rng::derive(&[ctx.seed, ctx.shard, idx, 10]);
         let g = idx * ctx.nshards + ctx.shard;
         let exhaustive = g < exh_total;
@@ -356,6 +357,7 @@ pub fn c11(ctx: &Ctx, rep: &mut Report) {
         if ctx.only.is_none() && (ctx.expired() || idx >= ctx.max_cases) {
             break;
         }
+        ctx.begin(idx);
         let mut rng = Rng::derive(&[ctx.seed, ctx.shard, idx, 11]);
         if idx % 2 == 0 {
             // --- writing functions round trip
